@@ -24,7 +24,7 @@ if [ $builds = yes ]; then
   rm -rf "$p"
   out=$(VERIF_REPO="$s" VERIF_OUT="$s/out" bin/govc check "$prop" 2>&1); rc=$?
   if [ $rc -eq 1 ] && echo "$out" | grep -q "^VIOLATION property=$prop"; then detected=yes; fi
-  oblig=$(echo "$out" | grep "^FAILED-OBLIGATION" | head -3 | cut -c1-260 | tr '\n' '|' | tr '"' "'")
+  oblig=$(echo "$out" | grep "^FAILED-OBLIGATION" | head -3 | cut -c1-260 | tr '\n\t' '| ' | tr -d '\000-\010\013-\037' | tr '"\\' "'/")
   nviol=$(echo "$out" | grep -c "^VIOLATION")
 fi
 rm -rf "$s"
